@@ -631,6 +631,8 @@ impl<'forest, I: Interner> SolveState<'forest, I> {
         // At this point, we know we have an answer for
         // the selected subgoal of the strand.
         // Now, we have to unify that answer onto the strand.
+        #[cfg(chalk_verif)]
+        crate::verif::forget_merge_next();
 
         // If this answer is ambiguous and we don't want ambiguous answers
         // yet, then we act like this is a floundered subgoal.
